@@ -231,6 +231,22 @@ DECORATORS = (
     (["property", "abc.abstractmethod"], "prop"),
     (["staticmethod", "abc.abstractmethod"], "wrap"),
 )
+# (header lines, extra indentation of the definition, footer lines): every branch that holds a definition is executed by
+# CPython and no other branch holds one, so "the last definition executed" is also the last one in source order
+CONTEXTS = (
+    ([], 0, []),
+    (["if True:"], 4, []),
+    (["if False:", "    pass", "else:"], 4, []),
+    (["if False:", "    pass", "elif True:"], 4, []),
+    (["try:"], 4, ["except ImportError:", "    pass"]),
+    (["try:", "    raise ImportError", "except ImportError:"], 4, []),
+    (["try:", "    pass", "except ImportError:", "    pass", "else:"], 4, []),
+    (["try:", "    pass", "finally:"], 4, []),
+    (["match 1:", "    case 1:"], 8, []),
+    (["with contextlib.nullcontext():"], 4, []),
+    (["for _loop in (0,):"], 4, []),
+)
+_ctx = st.sampled_from([0, 0, 0, 0, *range(1, len(CONTEXTS))])
 _MODULE_LEVEL_DECOS = (0, 0, 5, 6)
 _CLASS_LEVEL_DECOS = (0, 0, 0, 1, 1, 2, 3, 4, 5, 6, 7, 8, 9)
 
@@ -245,6 +261,10 @@ def _deco_items(draw, in_class: bool, lo: int, hi: int):
                 "async": draw(st.integers(0, 1)),
                 "deco": draw(st.sampled_from(_CLASS_LEVEL_DECOS if in_class else _MODULE_LEVEL_DECOS)),
                 "sig": draw(sig_models(2)),
+                # ctx: the compound statement the definition sits in (CONTEXTS); redef: re-use the name of the previous
+                # definition of the same scope (a re-definition: CPython keeps the last one executed)
+                "ctx": draw(_ctx),
+                "redef": int(draw(st.integers(0, 3)) == 0),
             }
         )
     return items
@@ -263,20 +283,40 @@ def decorated_cases(draw):
 
 
 def decorated_names(case: dict):
-    """Yield (scope path, name, item) in declaration order; names are d0, d1, ... over the whole module."""
+    """Yield (scope path, name, item) in declaration order; names are d0, d1, ... over the whole module; an item with "redef"
+    re-uses the name of the previous definition of its scope."""
     k = 0
+    prev_module = None
     for it in case["body"]:
         if it["t"] == "cls":
+            prev = None
             for sub in it["body"]:
-                yield it["name"], f"d{k}", sub
+                name = prev if (sub.get("redef") and prev) else f"d{k}"
+                yield it["name"], name, sub
+                prev = name
                 k += 1
         else:
-            yield "", f"d{k}", it
+            name = prev_module if (it.get("redef") and prev_module) else f"d{k}"
+            yield "", name, it
+            prev_module = name
             k += 1
 
 
+def final_definitions(case: dict):
+    """(scope, name, item) of the LAST definition of every name: what the name is bound to once the module has run."""
+    last: dict = {}
+    for scope, name, it in decorated_names(case):
+        last[(scope, name)] = it
+    return [(scope, name, it) for (scope, name), it in last.items()]
+
+
+def _in_context(lines: list[str], ctx: int, indent: str) -> list[str]:
+    header, extra, footer = CONTEXTS[ctx]
+    return [indent + h for h in header] + [" " * extra + ln for ln in lines] + [indent + f for f in footer]
+
+
 def render_decorated_module(case: dict) -> str:
-    lines = ["from __future__ import annotations", "import abc", "import functools"]
+    lines = ["from __future__ import annotations", "import abc", "import contextlib", "import functools"]
     names = iter(decorated_names(case))
     tag = 0
     for it in case["body"]:
@@ -284,10 +324,10 @@ def render_decorated_module(case: dict) -> str:
             lines.append(f"class {it['name']}:")
             for sub in it["body"]:
                 _, name, _ = next(names)
-                lines.extend(render_fn(name, sub["sig"], tag, DECORATORS[sub["deco"]][0], bool(sub["async"]), "    "))
+                lines.extend(_in_context(render_fn(name, sub["sig"], tag, DECORATORS[sub["deco"]][0], bool(sub["async"]), "    "), sub.get("ctx", 0), "    "))
                 tag += 1
         else:
             _, name, _ = next(names)
-            lines.extend(render_fn(name, it["sig"], tag, DECORATORS[it["deco"]][0], bool(it["async"]), ""))
+            lines.extend(_in_context(render_fn(name, it["sig"], tag, DECORATORS[it["deco"]][0], bool(it["async"]), ""), it.get("ctx", 0), ""))
             tag += 1
     return "\n".join(lines) + "\n"
